@@ -326,7 +326,15 @@ func TestReplayC11(t *testing.T) {
 		var all []Rec
 		all = append(all, first...)
 		all = append(all, second...)
-		file := writeFile(t, all, 3, []int{3, 3}, codec)
+		// further values that look like a trailer: a footer length of 0, 1, 2 and one that
+		// points before the start of the file
+		third := recs(4, 6)
+		third[0].Name = sp("\x00\x00\x00\x00PAR1")
+		third[1].Name = sp("\x01\x00\x00\x00PAR1")
+		third[2].Name = sp("x\x02\x00\x00\x00PAR1")
+		third[3].Name = sp("\xff\xff\xff\x7fPAR1")
+		all = append(all, third...)
+		file := writeFile(t, all, 3, []int{3, 3, 4}, codec)
 		for n := 0; n < len(file); n++ {
 			func() {
 				defer func() {
